@@ -17,6 +17,8 @@ pub struct CorpusSpec<'a> {
     pub alias: Option<&'a str>,
     /// cargo features to enable on the corpus crate (property-specific compile-time probes)
     pub extra_files: Vec<(String, String)>,
+    /// library indices left out of the binary (candidates that do not compile, see shrink.rs)
+    pub bin_skip: Vec<usize>,
 }
 
 pub fn work_dir(name: &str) -> PathBuf {
@@ -69,7 +71,7 @@ pub fn write_corpus(spec: &CorpusSpec, nlibs: usize) -> PathBuf {
         lib_progs[i % nlibs].push(p);
     }
     // remove stale sources
-    for i in 0..64 {
+    for i in 0..128 {
         let d = dir.join(format!("lib{i}"));
         if i >= nlibs && d.exists() {
             let _ = std::fs::remove_dir_all(&d);
@@ -107,7 +109,7 @@ pub fn write_corpus(spec: &CorpusSpec, nlibs: usize) -> PathBuf {
     // bin
     let cdir = dir.join("corp");
     let mut deps = format!("svrt = {{ path = \"{VERIF}/engine/svrt\" }}\n");
-    for i in 0..nlibs {
+    for i in (0..nlibs).filter(|i| !spec.bin_skip.contains(i)) {
         deps.push_str(&format!("{} = {{ path = \"../lib{i}\" }}\n", lib_name(i)));
     }
     write_if_changed(
@@ -115,7 +117,7 @@ pub fn write_corpus(spec: &CorpusSpec, nlibs: usize) -> PathBuf {
         &format!("[package]\nname = \"corp_{}\"\nversion = \"0.1.0\"\nedition = \"2021\"\n\n[dependencies]\n{deps}", spec.name),
     );
     let mut main = String::from("fn main() {\n    let mut v: Vec<fn() -> svrt::Prog> = vec![];\n");
-    for i in 0..nlibs {
+    for i in (0..nlibs).filter(|i| !spec.bin_skip.contains(i)) {
         main.push_str(&format!("    v.extend({}::programs());\n", lib_name(i)));
     }
     main.push_str("    svrt::props::run_main(v);\n}\n");
